@@ -3,6 +3,7 @@
 # Monitor invariant  I: requested = executed ++ inflight ++ buffer.   `with self._lock` : havoc what other threads own, assume I at
 # acquire, assert I at release.  All interleavings and all timer firing patterns are covered by the soundness of the rule.
 import ast
+import os
 import z3
 
 from pyvc.vals import Val, NONE, S, B, I as IV, K, LAT, TYP, sub, SeqV, Str, BASE, fresh, truthy, is_exc, St, Unsupported
@@ -13,7 +14,7 @@ from pyvc.run import Obl
 from pyvc import lib
 from pyvc.calls import Role
 
-REPO_ROOT = '/repo'
+REPO_ROOT = os.environ.get('PYVC_REPO', '/repo')
 MODN = 'playback.tape_cassettes.asynchronous.async_record_only_tape_cassette'
 AC = MODN + ':AsyncRecordOnlyTapeCassette.'
 E = z3.Empty(SeqV)
@@ -121,7 +122,7 @@ class AsyncSpec(object):
 
 
 def base(qual, is_flusher, params=()):
-    repo = Repo(REPO_ROOT); spec = AsyncSpec(is_flusher); ex = lib.install(Exec(repo, spec))
+    repo = Repo(); spec = AsyncSpec(is_flusher); ex = lib.install(Exec(repo, spec))
     m, cls, node, info = repo.find(qual)
     st = St(); selfv = st.sym_obj('self', 'AsyncRecordOnlyTapeCassette'); spec.selfv = selfv
     buf = st.sym_obj('buf0', 'list'); st.wr(selfv, BUF, buf)
@@ -212,7 +213,7 @@ def async_recording_ops(props=None):
     obl = []; infos = []; n = 0
     AR = MODN + ':AsyncRecording.'
     for meth, params, wrapped_call in (('_set_data', ['key', 'value'], 'set_data'), ('_add_metadata', ['metadata'], 'add_metadata')):
-        repo = Repo(REPO_ROOT); spec = ClosureSpec(); ex = lib.install(Exec(repo, spec))
+        repo = Repo(); spec = ClosureSpec(); ex = lib.install(Exec(repo, spec))
         m, cls, node, info = repo.find(AR + meth); infos.append(info)
         st = St(); selfv = st.sym_obj('self', 'AsyncRecording')
         wrapped = st.sym_obj('wrapped', 'Recording', False); st.wr(selfv, 'wrapped_recording', wrapped)
